@@ -581,6 +581,15 @@ Definition run_conn_nocache := run_conn_with is_part_of_origin true.
     *without* its Origin on a cache-less server with the same handlers ([None] = nothing prescribed). *)
 Definition strip_origin (r : request) : request :=
   mkReq (rq_method r) (rq_path r) (rq_query r) (filter (fun h => negb (beq (fst h) H_ORIGIN)) (rq_headers r)) (rq_addr r).
+(** what the code's check returns for a verdict *)
+Definition verdict_grant (v : verdict) : option grant :=
+  match v with VSame => Some same_origin_grant | VAllow g => Some g | VRefuse => None end.
+Definition has (n : bytes) (r : request) : bool := match header n r with Some _ => true | None => false end.
+(** the shape the preflight Prime reacts to: OPTIONS with Origin and access-control-request-method *)
+Definition pf_shape (r : request) : bool := (rq_method r =? M_OPTIONS) && has H_ORIGIN r && has H_ACRM r.
+(** rule lookup by the independent resolver over the configuration history (none without [with_cors]) *)
+Definition hist_lookup (cfg : ccfg) (hist : list (bytes * allow_list)) (p : bytes) : option allow_list :=
+  if cc_with_cors cfg then resolve hist p else None.
 Definition is_preflight (r : request) : bool :=
   (rq_method r =? M_OPTIONS) && (match header H_ACRM r with Some _ => true | None => false end).
 Definition spec_one (hist : list (bytes * allow_list)) (with_cors : bool) (cfg : ccfg) (r : request) : xval :=
